@@ -135,7 +135,7 @@ pub fn segment(o: Opt) -> BoxedStrategy<String> {
 		o,
 		&[
 			"a", "b", "", ".", "..", "a:b", ":", "1:b", "c", "@", "a;p=1", "~", "...", ".a", "a.", "..b",
-			"x:", ":x", "a@b", "seg", "0", "+:", "a-b:c", "a.b:", "C:", "c:", "index.html", "localhost",
+			"x:", ":x", "a@b", "seg", "0", "+:", "a-b:c", "a.b:", "C:", "c:", "index.html", "localhost", "%2E", "%2e%2E", "...", "....", "..;", ";jsessionid=1", "a%2Fb", "%2F", "xn--bcher-kva",
 		],
 		&["\u{e9}:b", "\u{e9}", "\u{8a9e}", "\u{10000}", "\u{a0}\u{d7ff}"],
 		true,
@@ -233,7 +233,9 @@ pub fn query(o: Opt) -> BoxedStrategy<String> {
 pub fn fragment(o: Opt) -> BoxedStrategy<String> {
 	let p = pool(
 		o,
-		&["", "f", "a/b", "?", "/", ":", "@", "x?y/z", "//", "a:b", "../", "frag"],
+		// incl. tokens that browsers and frameworks give a meaning of their own (text-fragment directive, hash-bang
+		// routes, a "second URL" after the hash)
+		&["", "f", "a/b", "?", "/", ":", "@", "x?y/z", "//", "a:b", "../", "frag", "intro:~:text=hello", ":~:text=a,b", "!/route/1", "/path?x=1&y=2", "http://other/?q", "top:~:", "a=b&c=d", "%23", "L10-L20"],
 		&["\u{e9}", "\u{8a9e}/\u{10000}"],
 		true,
 	);
@@ -1060,4 +1062,44 @@ pub fn with_arena_bytes<R>(bytes: &[u8], f: impl FnOnce(&[u8]) -> R) -> R {
 		slot.copy_from_slice(bytes);
 		f(slot)
 	})
+}
+
+
+/// Non-periodic filler of exactly `n` bytes over [0-9a-z-]: base-36 counters joined by '-'. A block that is
+/// moved to the wrong place, copied twice or dropped changes the text (with "xxxx..." it would not).
+pub fn filler(n: usize) -> String {
+	let mut s = String::with_capacity(n + 8);
+	let mut i = 0u64;
+	while s.len() < n {
+		let mut k = i;
+		let mut d = [0u8; 13];
+		let mut l = 0;
+		loop {
+			d[l] = b"0123456789abcdefghijklmnopqrstuvwxyz"[(k % 36) as usize];
+			l += 1;
+			k /= 36;
+			if k == 0 {
+				break;
+			}
+		}
+		for j in (0..l).rev() {
+			s.push(d[j] as char);
+		}
+		s.push('-');
+		i += 1;
+	}
+	s.truncate(n);
+	s
+}
+
+/// Non-periodic decimal digits (for ports).
+pub fn digits(n: usize) -> String {
+	let mut s = String::with_capacity(n + 20);
+	let mut i = 1u64;
+	while s.len() < n {
+		s.push_str(&(i * 7919).to_string());
+		i += 1;
+	}
+	s.truncate(n);
+	s
 }
